@@ -75,7 +75,9 @@ func main() {
 	{
 		tmpls := []string{"if . then %D else %U end", "if . then 0 elif . == null then %D else %U end", "if . then %U elif . == null then %D else %U end", "if (%D) then %U else %U end", "if . then %D end | %U", "(%D), %U", "(%D) | %U", "[%D, %U]", "{a: (%D), b: %U}", "{(%D | tostring): %U}",
 			"try (%D) catch %U", "try error(%D) catch %U", "reduce (%D) as $q (0; %U)", "reduce . as $q ((%D); %U)", "reduce . as $q (0; %D) | %U", "foreach . as $q (0; (%D); %U)", "foreach (%D) as $q (0; 1; %U)", "label $w | (%D), %U", "(%D) as $q | %U", "(%D) as [$q] ?// $q | %U", "(%D) // %U", "(%D) + %U", "[%U, (%D), %U]",
-			"first(%D), %U", "def g: %D; g, %U", "def g(h): h; g(%D), %U", "def g: %D; def h: %U; [g, h]", "\"\\(%D)\\(%U)\"", "[.[(%D)]?, %U]", "[(%D)?, %U]", "((%D) | not), %U", "-(%D), %U", "[limit(1; %D)], %U", "path(%D)?, %U", "[(%D), (%D)] | %U", "%U, (%D), %U"}
+			"first(%D), %U", "def g: %D; g, %U", "def g(h): h; g(%D), %U", "def g: %D; def h: %U; [g, h]", "\"\\(%D)\\(%U)\"", "[.[(%D)]?, %U]", "[(%D)?, %U]", "((%D) | not), %U", "-(%D), %U", "[limit(1; %D)], %U", "path(%D)?, %U", "[(%D), (%D)] | %U", "%U, (%D), %U",
+			// the USE first, still pending (a generator) while the same name is declared again after it at the same depth
+			"%U | %D", "[%U | %D]", "(%U, %U) | %D", "%U | %D | %U", "[(%U | %D), %U]", "%U | [%D] | %U", "first(%U | %D), %U"}
 		kinds := []struct{ outer, d, u string }{
 			{"def f: \"outer\"; ", "def f: \"inner\"; f", "f"},
 			{"def f(g): [\"outer\", g]; ", "def f(g): [\"inner\", g]; f(1)", "f(2)"},
